@@ -34,7 +34,7 @@ func ZZ_C11_Restore() {
 	prompt := "> "
 	rl.Prompt.Primary(func() string { return prompt })
 
-	keys := map[string]string{"accept": "\r", "hold": "\x1c", "abort": "\x03", "eof": "\x04", "comment": "\x1d", "panic": "\x1e"}
+	keys := map[string]string{"accept": "\r", "hold": "\x1c", "abort": "\x03", "abortg": "\x07", "eof": "\x04", "comment": "\x1d", "panic": "\x1e"}
 	wait := 0
 	script.OnWait = func() {
 		if wait == 0 {
@@ -50,6 +50,7 @@ func ZZ_C11_Restore() {
 					rl.Config.Bind(km, "\x1d", "insert-comment", false)
 					rl.Config.Bind(km, "\x1e", "zz-panic", false)
 					rl.Config.Bind(km, "\x03", "abort", false)
+					rl.Config.Bind(km, "\x07", "abort", false)
 					rl.Config.Bind(km, "\x04", "end-of-file", false)
 					rl.Config.Bind(km, "\r", "accept-line", false)
 				}
